@@ -203,6 +203,94 @@ def malformed_stream(ctx):
     ctx.extra["malformed_differs"] = ctx.extra.get("malformed_differs", 0) + len(differs)
 
 
+SUPPLIED_VIA = ["from_topology", "ugrid-dataset"]
+
+
+def ugrid_dataset(m, G):
+    """a UGRID dataset that ships its own edge table (own variable / dimension names, cf_role attributes)"""
+    import xarray as xr
+
+    ds = xr.Dataset()
+    ds["mesh"] = xr.DataArray(np.int32(0), attrs=dict(
+        cf_role="mesh_topology", topology_dimension=2, node_coordinates="mesh_node_x mesh_node_y",
+        face_node_connectivity="mesh_face_nodes", edge_node_connectivity="mesh_edge_nodes"))
+    ds["mesh_node_x"] = xr.DataArray(m.lon.copy(), dims=["nMesh_node"], attrs=dict(standard_name="longitude", units="degrees_east"))
+    ds["mesh_node_y"] = xr.DataArray(m.lat.copy(), dims=["nMesh_node"], attrs=dict(standard_name="latitude", units="degrees_north"))
+    ds["mesh_face_nodes"] = xr.DataArray(m.table().copy(), dims=["nMesh_face", "nMaxMesh_face_nodes"],
+                                         attrs=dict(cf_role="face_node_connectivity", start_index=0, _FillValue=INT_FILL))
+    ds["mesh_edge_nodes"] = xr.DataArray(np.array(G, dtype=np.int64).reshape(-1, 2), dims=["n_edge", "Two"],
+                                         attrs=dict(cf_role="edge_node_connectivity", start_index=0))
+    return ds
+
+
+def draw_supplied(rng, E0):
+    """the source's own edge table: the faces' edges in the source's own order, each row from whichever end
+    node the source happened to list first; sometimes (kind=incomplete) a table that misses an edge"""
+    perm = list(range(len(E0)))
+    rng.shuffle(perm)
+    kind = "complete"
+    if len(E0) > 1 and rng.random() < 0.1:
+        kind = "incomplete"
+        perm = perm[:-1]
+    flip = [rng.random() < 0.5 for _ in perm]
+    return dict(kind=kind, perm=perm, flip=flip, via=rng.choice(SUPPLIED_VIA))
+
+
+def judge_supplied(ctx, m, tag, sup=None, order=None):
+    """grids whose SOURCE supplies edge_node_connectivity (Grid.from_topology(edge_node_connectivity=...) or a UGRID
+    dataset with an edge table): the supplied table is the grid's edge table (same rows, same numbering, same
+    orientation) and face_edge_connectivity indexes into it; a table that misses an edge is re-derived.  Such grids
+    are observed in the same process, interleaved with grids that derive their own edges, in any first-access order."""
+    import uxarray as ux
+
+    d = ctx.driver
+    t, w = m.rows(), m.width
+    E0 = common.Tok(d.ask("C02.model", enc_rows(t))).pairs()
+    sup = sup or draw_supplied(ctx.rng, E0)
+    G = [((E0[i][1], E0[i][0]) if f else tuple(E0[i])) for i, f in zip(sup["perm"], sup["flip"])]
+    order = list(ctx.rng.choice(ORDERS)) if order is None else order
+    inp = dict(mesh=m.describe(), table=t, tag=tag, supplied=sup, supplied_edge_table=G, access_order=order)
+    key = (tag, t, G, sup["via"])
+    ctx.hit(f"supplied:{sup['via']}:{sup['kind']}")
+    ctx.hit("supplied:first-access=" + order[0])
+    try:
+        if sup["via"] == "from_topology":
+            g = meshes.to_grid(m, ux, edge_node_connectivity=np.array(G, dtype=np.int64).reshape(-1, 2))
+        else:
+            g = ux.open_grid(ugrid_dataset(m, G))
+        for name in order:
+            getattr(g, name)
+        o = dict(edges=[(int(a), int(b)) for a, b in g.edge_node_connectivity.values],
+                 faceEdges=[[int(x) for x in r] for r in g.face_edge_connectivity.values],
+                 nPerFace=[int(x) for x in g.n_nodes_per_face.values], n_edge=int(g.n_edge))
+    except Exception as e:
+        ctx.case(key, sample=inp)
+        if sup["kind"] == "incomplete":
+            # one signature for the whole class (the order of first access does not matter for it)
+            sig = f"C02/supplied/incomplete-table/re-derivation-raises-{type(e).__name__}"
+        else:
+            sig = f"C02/supplied/complete/raises/{type(e).__name__}/first-access={order[0]}"
+        ctx.fail(sig, f"edge tables of a grid with a source-supplied edge table raise {type(e).__name__}: {e}", inp)
+        return
+    ctx.case(key, nontrivial=True, sample=dict(inp, implementation=o) if m.n_face <= 3 else None)
+    verdict = d.ask("C02.specGiven", w, enc_rows(t), enc_pairs(G), enc_pairs(o["edges"]), enc_rows(o["faceEdges"]), enc_ints(o["nPerFace"]))
+    mo = common.Tok(d.ask("C02.modelGiven", enc_rows(t), enc_pairs(G)))
+    kept = mo.int() == 1
+    model = dict(edges=mo.pairs(), faceEdges=mo.rows(), nPerFace=mo.ints(), supplied_table_kept=kept)
+    assert kept == (sup["kind"] == "complete"), "generator: kind of supplied table"
+    if verdict != "ok":
+        clauses = verdict.split(" ", 1)[1].split(",")
+        ctx.fail(f"C02/supplied/{sup['kind']}/" + "+".join(clauses),
+                 "edge tables of a grid with a source-supplied edge table: " + verdict, inp, o, model, clauses)
+        return
+    if o["n_edge"] != len(o["edges"]):
+        ctx.fail("C02/supplied/n_edge", "n_edge differs from the number of edge rows", inp, o, model, ["n_edge"])
+    if ([tuple(e) for e in o["edges"]], o["faceEdges"], o["nPerFace"]) != ([tuple(e) for e in model["edges"]], model["faceEdges"], model["nPerFace"]):
+        ctx.mismatch("C02/supplied/tables-differ", inp, o, model)
+    else:
+        ctx.hit("supplied:identical-to-model(" + ("table kept" if kept else "table re-derived") + ")")
+
+
 PRE_ATTRS = ["edge_node_connectivity", "face_edge_connectivity", "n_nodes_per_face", "edge_face_connectivity",
              "node_face_connectivity", "face_face_connectivity", "hole_edge_indices", "edge_face_distances"]
 
@@ -314,7 +402,10 @@ def small_scope(ctx):
         used = sorted({v for f in fs for v in f})
         mp = {v: i for i, v in enumerate(used)}
         m = meshes.AMesh([[mp[v] for v in f] for f in fs], xyz[used], False, "small-scope")
-        judge(ctx, m, "small")
+        if rng.random() < 0.25:
+            judge_supplied(ctx, m, "small+supplied")
+        else:
+            judge(ctx, m, "small")
         seen += 1
 
 
@@ -340,6 +431,8 @@ def run(ctx):
                 judge(ctx, meshes.with_orphans(m, ctx.rng), m.kind + "+orphans")
             if m.n_face <= 200 and ctx.rng.random() < 0.5:
                 judge_derived(ctx, m, m.kind + "+derived")
+            if m.n_face <= 400 and ctx.rng.random() < 0.5:
+                judge_supplied(ctx, m, m.kind + "+supplied")
 
 
 def replay(ctx, rp):
@@ -354,6 +447,9 @@ def replay(ctx, rp):
     import uxarray as ux
 
     observe(ux, meshes.prism(5))
+    if inp.get("supplied"):
+        judge_supplied(ctx, m, "replay", inp["supplied"], inp.get("access_order"))
+        return
     if inp.get("derivation"):
         judge_derived(ctx, m, "replay", inp["derivation"], inp.get("access_order"))
         return
